@@ -223,20 +223,32 @@ def main():
 
   nondeterministic = 0
   confirmed = []
-  # confirm (at most 12 distinct, the rest are reported unconfirmed-but-listed)
-  for t, v in new_v[:12]:
-    rt = dict(t)
-    if "replay_task" in v:
-      rt = v["replay_task"]
-    res2 = run_tasks(prop, [rt], 1, 3600, progress=False)[0]
-    sigs2 = {x["sig"] for x in res2.get("violations", [])}
-    if "infra_error" in res2 or v["sig"] not in sigs2:
+  # confirm the first few distinct violations in fresh workers (in parallel);
+  # the same case must fail again or it is reported as nondeterminism
+  NCONF = 6
+  conf = [(v.get("replay_task", t), v) for t, v in new_v[:NCONF]]
+  uniq, order = {}, []
+  for rt, v in conf:
+    key = json.dumps(rt, sort_keys=True, default=str)
+    if key not in uniq:
+      uniq[key] = rt
+      order.append(key)
+  res2 = run_tasks(prop, [uniq[k] for k in order], args.jobs, 3600,
+                   progress=False) if order else []
+  sigs_by_key = {}
+  for k, r in zip(order, res2):
+    sigs_by_key[k] = None if "infra_error" in r else \
+        {x["sig"] for x in r.get("violations", [])}
+  for rt, v in conf:
+    key = json.dumps(rt, sort_keys=True, default=str)
+    sigs2 = sigs_by_key[key]
+    if sigs2 is None or v["sig"] not in sigs2:
       nondeterministic += 1
       print("NONDETERMINISM property=%s sig=%s (not reproduced in a fresh "
             "worker)" % (prop, v["sig"]))
       continue
     confirmed.append((rt, v))
-  for t, v in new_v[12:]:
+  for t, v in new_v[NCONF:]:
     confirmed.append((v.get("replay_task", t), v))
 
   os.makedirs(os.path.join(ROOT, "replays"), exist_ok=True)
